@@ -297,6 +297,17 @@ def gen_cases(tier, rnd):
         for kind in kinds_for(shape):
             for u in ['T', 'flatten', 'neg', 'sum', 'sum0', 'sum-1', 'sum1', 'sum(0,1)', 'reshape-1', 'reshapeR']:
                 cs.append(dict(t='unary', kind=kind, shape=shape, u=u))
+    # 5b. the same expression OBJECT used twice: a first use (index / axis sum / transpose, result discarded) must not
+    #     change what a later reshape / transpose / flatten followed by an index or an axis sum denotes
+    for shape in [(2, 3), (3,), (2, 3, 2)]:
+        for kind in kinds_for(shape):
+            for touch in ['ix0', 'sum0', 'T', 'sum-1']:
+                for u in ['reshapeR', 'reshape-1', 'T', 'flatten', 'neg']:
+                    for then in ['ix-1', 'ix0', 'sum0', 'ixlast']:
+                        if tier == 'quick' and (touch, then) not in (('ix0', 'ixlast'), ('sum0', 'ix-1'), ('sum-1', 'sum0'),
+                                                                     ('T', 'ix0')):
+                            continue
+                        cs.append(dict(t='reuse', kind=kind, shape=shape, touch=touch, u=u, then=then))
     # 6. concat / rstack / cstack / vec
     for kinds in [('dvar', 'dvar'), ('dvar', 'affine'), ('dvarsub', 'dvar'), ('affine', 'const'), ('const', 'dvar'),
                   ('dvar', 'scalar'), ('rvar', 'rvar')]:
@@ -475,6 +486,28 @@ def build(item, rnd):
         a, A = make_operand(ctx, item['kind'], item['shape'], rnd)
         f = UNARY[item['u']]
         return ctx, (lambda: f(a)), (lambda: f(A))
+    if t == 'reuse':
+        a, A = make_operand(ctx, item['kind'], item['shape'], rnd)
+        if hasattr(a, 'to_affine') and not hasattr(a, 'linear') and not hasattr(a, 'raffine'):
+            a = a.to_affine()          # variables build a fresh expression on every use: keep ONE expression object
+
+        def step(e, name):
+            if name == 'ix0':
+                return e[0]
+            if name == 'ix-1':
+                return e[-1]
+            if name == 'ixlast':
+                return e[tuple(n - 1 for n in e.shape)] if e.shape != () else e
+            if name == 'sum0':
+                return e.sum(axis=0)
+            if name == 'sum-1':
+                return e.sum(axis=-1)
+            return UNARY[name](e)
+
+        def real():
+            step(a, item['touch'])
+            return step(step(a, item['u']), item['then'])
+        return ctx, real, (lambda: step(step(A, item['u']), item['then']))
     if t == 'concat':
         ops = []
         for k, s in zip(item['kinds'], (item['sa'], item['sb'])):
